@@ -327,8 +327,15 @@ func (c *Ctx) Borrow(from string, rename map[string]string, why string) {
 		}
 	}
 	// anchors of the lending property that no longer resolve make the borrowed clause undecidable
+	// (an anchor of a rule that is not borrowed matters only when nothing of the borrowed rules was produced)
 	for _, u := range child.Unres {
-		c.Unresolved(c.Prop+".borrow", from+": "+u)
+		rule := u
+		if i := strings.Index(u, ": "); i >= 0 {
+			rule = u[:i]
+		}
+		if _, borrowed := match(rule); borrowed || n == 0 {
+			c.Unresolved(c.Prop+".borrow", from+": "+u)
+		}
 	}
 	for f := range child.Funcs {
 		c.Funcs[f] = true
